@@ -5,6 +5,10 @@ for p in "$@"; do
   mkdir -p /tmp/seed/$p-out
   if [ ! -d /tmp/seed-target-$p ]; then
     cp -al /tmp/seed-target /tmp/seed-target-$p && rm -rf /tmp/seed-target-$p/debug/.fingerprint && cp -a /tmp/seed-target/debug/.fingerprint /tmp/seed-target-$p/debug/.fingerprint
+    # lock files must not be hard links shared with other target dirs (they would serialise every seeder)
+    for f in .cargo-build-lock .cargo-lock .cargo-artifact-lock; do
+      [ -e /tmp/seed-target-$p/debug/$f ] && cp /tmp/seed-target-$p/debug/$f /tmp/seed-target-$p/debug/$f.new && mv -f /tmp/seed-target-$p/debug/$f.new /tmp/seed-target-$p/debug/$f
+    done
   fi
   python3 /verif/tools/seed_prompt.py $p "${HINT:-}" > /tmp/seed/$p-prompt.txt
 done
